@@ -41,6 +41,7 @@ pub struct ShimState {
     pub sizes: HashMap<String, u64>,
     pub log: Vec<Effect>,
     pub faults: Vec<(Fault, usize)>, // fault, matching calls seen so far
+    pub pending_errno: HashMap<i32, i32>, // fd -> errno the next write on it returns (after a short write)
     pub fired: Vec<String>,
 }
 
@@ -81,6 +82,7 @@ pub fn arm(f: Fault) {
 pub fn disarm() -> Vec<String> {
     with_state(|s| {
         s.faults.clear();
+        s.pending_errno.clear();
         std::mem::take(&mut s.fired)
     })
 }
@@ -196,9 +198,24 @@ pub unsafe extern "C" fn write(fd: c_int, buf: *const c_void, count: size_t) -> 
     let Some((path, append, pos)) = tracked else {
         return realf(fd, buf, count);
     };
+    // POSIX: a write that stored some bytes returns the short count; the error surfaces on the NEXT write call
+    if let Some(e) = with_state(|s| s.pending_errno.remove(&fd)) {
+        set_errno(e);
+        return -1;
+    }
     let fault = with_state(|s| check_fault(s, "write", &path));
     let (to_write, fail) = match fault {
-        Some((e, short)) => (short.unwrap_or(0).min(count), Some(e)),
+        Some((e, short)) => {
+            let n = short.unwrap_or(0).min(count);
+            if n > 0 && n < count {
+                with_state(|s| {
+                    s.pending_errno.insert(fd, e);
+                });
+                (n, None)
+            } else {
+                (0, Some(e))
+            }
+        }
         None => (count, None),
     };
     let mut written: ssize_t = 0;
